@@ -24,6 +24,7 @@ use string::StringNewtype;
 /// Defines sanitizers and validators on a newtype.
 /// Guarantees that the type can be instantiated only with valid values.
 /// See the documentation for [nutype](https://docs.rs/nutype) crate for more information.
+#[cfg(not(nutype_verif))]
 #[proc_macro_attribute]
 pub fn nutype(
     attrs: proc_macro::TokenStream,
@@ -32,6 +33,16 @@ pub fn nutype(
     expand_nutype(attrs.into(), type_definition.into())
         .unwrap_or_else(|e| syn::Error::to_compile_error(&e))
         .into()
+}
+
+/// Verification hook: lets a harness call the expansion in-process when this source tree is
+/// compiled as an ordinary library (`--cfg nutype_verif`). Never part of a normal build.
+#[cfg(nutype_verif)]
+pub fn __verif_expand(
+    attrs: TokenStream,
+    type_definition: TokenStream,
+) -> Result<TokenStream, syn::Error> {
+    expand_nutype(attrs, type_definition)
 }
 
 fn expand_nutype(
